@@ -112,6 +112,18 @@ class Mix(Scenario):
                     return create_error_future(RuntimeError('app error ' + it.tag))
                 if it.rr_mode == 'raise':
                     raise AppRaise('handler raises ' + it.tag)
+                if it.rr_mode == 'slow':
+                    # the handler coroutine itself is suspended (the engine awaits it inside its receiver) until released
+                    g = w.loop.create_future()
+                    st[it.tag]['hgate'] = g
+                    w.api(side, 'handler', 'suspended', it.tag)
+
+                    async def slow():
+                        await g
+                        from rsocket.helpers import create_future
+                        return create_future(it.pay('r', 0))
+
+                    return slow()
                 f = w.loop.create_future()
                 st[it.tag]['rrfut'] = f
                 return f
@@ -278,6 +290,12 @@ class Mix(Scenario):
                             st['rrfut'].set_exception(RuntimeError('app error ' + it.tag))
 
                 w.add_actor('res' + it.tag, [Step('resolve', resolve, guard=lambda w: 'rrfut' in st)])
+            if it.rr_mode == 'slow':
+                def release(w):
+                    if not st['hgate'].done():
+                        st['hgate'].set_result(None)
+
+                w.add_actor('rel' + it.tag, [Step('release', release, guard=lambda w: 'hgate' in st)])
         elif it.kind == 'fnf':
             steps.append(Step('request', lambda w: st.__setitem__('fut', watch_future(w, side, 'fnf' + it.tag, sock.fire_and_forget(it.pay('q', 0))))))
         elif it.kind == 'push':
